@@ -1827,11 +1827,15 @@ loop:
 	} else {
 		// But if there is a non-expression statement, fall back to using an
 		// IIFE since we may be in an expression context and can't use a block.
+		// ("this" has already been replaced and "arguments"/"await" are not
+		// allowed in a static block, so a plain function is equivalent)
+		body := js_ast.FnBody{Loc: block.Loc, Block: block.Block}
+		var target js_ast.E = &js_ast.EArrow{Body: body}
+		if p.options.unsupportedJSFeatures.Has(compat.Arrow) {
+			target = &js_ast.EFunction{Fn: js_ast.Fn{Body: body}}
+		}
 		ctx.staticMembers = append(ctx.staticMembers, js_ast.Expr{Loc: loc, Data: &js_ast.ECall{
-			Target: js_ast.Expr{Loc: loc, Data: &js_ast.EArrow{Body: js_ast.FnBody{
-				Loc:   block.Loc,
-				Block: block.Block,
-			}}},
+			Target:                 js_ast.Expr{Loc: loc, Data: target},
 			CanBeUnwrappedIfUnused: p.astHelpers.StmtsCanBeRemovedIfUnused(block.Block.Stmts, 0),
 		}})
 	}
